@@ -271,27 +271,40 @@ theorem c10_client_closed (ops : List Op) (h : (run {} ops).closed = true) :
   have hi := inv_run ops {} inv_init
   exact hi.none_empty (hi.closed_conn h)
 
-/-- **The k-th callback gets the k-th response or an error.**  Under the environment hypothesis
-    `EnvOK` (responses are delivered only by the parser of the current connection and only for requests
-    written to it — what C10 (a) gives for a server, per connection), every callback invoked with a
+/-- **The k-th callback gets the k-th response or an error** — for every sequence of `Do` (any dial /
+    write outcome), responses and close notifications from *any* connection, old or current, timeouts,
+    user closes and resets.  The only hypothesis, `EnvOK`, is about the server at the other end of the
+    *current* connection: it sends a response only for a request that was written to that connection
+    (C10 (a): exactly one response per request, in order).  Then every callback that is invoked with a
     response is invoked with the response that answers *its* request. -/
-theorem c10_client_match_partial (ops : List Op) (henv : EnvOK {} ops) :
+theorem c10_client_match (ops : List Op) (henv : EnvOK {} ops) :
     ∀ c ∈ (run {} ops).calls, ∀ lbl, c.2 = Out.resp lbl → lbl = some c.1 :=
   (match_run ops {} inv_init match_init henv).labels
 
-/-- Without `EnvOK` the matching fails: request 0 is written to connection 0; the write of request 1
-    fails (`closeWithErrorWithoutLock`: both callbacks get the error, `c.conn = nil`, but `closed` stays
-    false); request 2 dials connection 1; the response job of connection 0 — already queued — now runs
-    `onResponse`, which does not know which connection it came from: request 2's callback receives the
-    response to request 0.  (Full statement `∀ ops, matching` is false; exactly-once still holds.) -/
-theorem c10_client_match_counterexample :
-    (2, Out.resp (some 0)) ∈
-      (run {} [Op.do_ true true, .do_ true false, .do_ true true, .onResponse 0 false]).calls := by
+/-- **A connection the ClientConn has replaced cannot touch its successor's requests**: a response read
+    from, or the end of, any connection other than the current one changes neither the pending
+    callbacks nor the invoked ones.  (On the pinned tree `onResponse` / the parser's close callback did
+    not know their connection: a late response of the old connection was handed to the oldest request
+    waiting on the new one, and the old connection's end failed the new one's requests — observed on
+    the real client by `he2e`; repaired by a `fix:` commit, this theorem is about the repaired code.) -/
+theorem c10_client_stale_ignored (s : St) (e : Nat) (x : Bool) (h : s.conn ≠ some e) :
+    (step s (.onResponse e x)).calls = s.calls ∧ (step s (.onResponse e x)).handlers = s.handlers ∧
+    (step s (.onResponse e x)).conn = s.conn ∧ step s (.connClosed e) = s := by
+  have hb : (s.conn == some e) = false := by simpa using h
+  simp [step, hb, deliver]
+
+/-- regression of the observed failure: request 0 is written to connection 0; the write of request 1
+    fails (`closeWithErrorWithoutLock`: both callbacks get the error, `c.conn = nil`); request 2 dials
+    connection 1; then connection 0's already queued response job runs and connection 0 ends.  Request 2
+    is untouched: still pending, never called. -/
+example :
+    let s := run {} [Op.do_ true true, .do_ true false, .do_ true true, .onResponse 0 false, .connClosed 0]
+    s.calls = [(0, .err), (1, .err)] ∧ s.handlers = [2] ∧ s.conn = some 1 ∧ s.closed = false := by
   decide
 
 /-- non-vacuity: three pipelined requests, answered in order, then the server closes -/
 def exOps : List Op :=
-  [.do_ true true, .do_ true true, .do_ true true, .onResponse 0 false, .onResponse 0 false, .closeAll]
+  [.do_ true true, .do_ true true, .do_ true true, .onResponse 0 false, .onResponse 0 false, .connClosed 0]
 
 instance decOk (s : St) (op : Op) : Decidable (okOp s op) := by
   cases op <;> simp only [okOp] <;> exact inferInstance
